@@ -73,11 +73,30 @@ type ServerCfg struct {
 	Native bool `json:"native"` // the built-in middlewares of RestConf.Middlewares switched on
 	Must   bool `json:"must"`   // rest.MustNewServer instead of rest.NewServer
 	// options that must be transparent for dispatch
-	OwnRouter bool `json:"ownrouter"` // rest.WithRouter(router.NewRouter()) (given first)
+	OwnRouter bool `json:"ownrouter"` // rest.WithRouter(a recording wrapper of router.NewRouter()) (given first)
+	// ... given LAST instead: "later RunOption might overwrite previous one" - the not-found / not-allowed handlers,
+	// CORS and file-server wrappers set up by the earlier options went to the router that is now replaced
+	OwnRouterLast bool `json:"ownrouter_last"`
 	CorsKind  int  `json:"corskind"`  // with cors: 0 WithCors(), 1 WithCorsHeaders, 2 WithCustomCors(nil, nil)
 	Files     bool `json:"files"`     // rest.WithFileServer("/static", a file system without files)
 	Extras    bool `json:"extras"`    // WithUnauthorizedCallback, WithUnsignedCallback, WithTLSConfig, Verbose
 	Scribble  bool `json:"scribble"`  // the caller overwrites the slice Server.Routes() returned, before Start
+}
+
+// recRouter is the user's own httpx.Router (rest.WithRouter): router.NewRouter() behind a wrapper that
+// records every Handle call engine.bindRoutes makes, in order, with what it returned.
+type recRouter struct {
+	httpx.Router
+	mu    sync.Mutex
+	calls [][3]string
+}
+
+func (r *recRouter) Handle(method, path string, h http.Handler) error {
+	err := r.Router.Handle(method, path, h)
+	r.mu.Lock()
+	r.calls = append(r.calls, [3]string{method, path, fmt.Sprint(regErr(err))})
+	r.mu.Unlock()
+	return err
 }
 
 type noFiles struct{}
@@ -125,6 +144,8 @@ type Out struct {
 	Starts      []int         `json:"starts"`       // 0 routes bound, else class of the error Start died with; -1 never started
 	Routes      [][][2]string `json:"routes"`       // server.Routes() after the last event
 	TablesAfter [][][2]string `json:"tables_after"` // the user's slices after the last event
+	// per server: the Handle calls made on the user's own router [method, path, error class]; null without WithRouter
+	Bound [][][3]string `json:"bound"`
 }
 
 type ran struct {
@@ -324,10 +345,14 @@ func parsePath(r *http.Request, names []string) ([][2]string, bool) {
 	return out, true
 }
 
-func newServer(c ServerCfg, st *state) (*rest.Server, error) {
+func newServer(c ServerCfg, st *state) (*rest.Server, *recRouter, error) {
 	var opts []rest.RunOption
-	if c.OwnRouter {
-		opts = append(opts, rest.WithRouter(router.NewRouter()))
+	var rec *recRouter
+	if c.OwnRouter || c.OwnRouterLast {
+		rec = &recRouter{Router: router.NewRouter()}
+	}
+	if c.OwnRouter && !c.OwnRouterLast {
+		opts = append(opts, rest.WithRouter(rec))
 	}
 	if c.NF {
 		opts = append(opts, rest.WithNotFoundHandler(st.notFound()))
@@ -383,10 +408,14 @@ func newServer(c ServerCfg, st *state) (*rest.Server, error) {
 		conf.Middlewares.MaxBytes = true
 		conf.Middlewares.Gunzip = true
 	}
-	if c.Must {
-		return rest.MustNewServer(conf, opts...), nil
+	if c.OwnRouterLast {
+		opts = append(opts, rest.WithRouter(rec))
 	}
-	return rest.NewServer(conf, opts...)
+	if c.Must {
+		return rest.MustNewServer(conf, opts...), rec, nil
+	}
+	srv, err := rest.NewServer(conf, opts...)
+	return srv, rec, err
 }
 
 func routeOpts(ev Event) []rest.RouteOption {
@@ -503,8 +532,10 @@ func buildServers(c Case, st *state, out *Out) []http.Handler {
 	servers := make([]*rest.Server, len(c.Servers))
 	handlers := make([]http.Handler, len(c.Servers))
 	out.Starts = make([]int, len(c.Servers))
+	recs := make([]*recRouter, len(c.Servers))
 	for i, sc := range c.Servers {
-		srv, err := newServer(sc, st)
+		srv, rec, err := newServer(sc, st)
+		recs[i] = rec
 		if err != nil {
 			out.Err = "NewServer: " + err.Error()
 			return nil
@@ -552,6 +583,15 @@ func buildServers(c Case, st *state, out *Out) []http.Handler {
 	}
 	for _, t := range tables {
 		out.TablesAfter = append(out.TablesAfter, pairs(t))
+	}
+	for _, rec := range recs {
+		if rec == nil {
+			out.Bound = append(out.Bound, nil)
+		} else {
+			rec.mu.Lock()
+			out.Bound = append(out.Bound, append([][3]string{}, rec.calls...))
+			rec.mu.Unlock()
+		}
 	}
 	return handlers
 }
@@ -745,7 +785,7 @@ func runCase(c Case, token string) (out Out) {
 		runs, custom := f.ctl.runs, f.ctl.custom
 		f.ctl.mu.Unlock()
 		_, cors := w.Header()["Access-Control-Allow-Origin"]
-		wantCors := server && c.Servers[f.si].Cors
+		wantCors := server && c.Servers[f.si].Cors && !c.Servers[f.si].OwnRouterLast
 		// with the timeout middleware in the chain a dispatched request may be answered 503 when the
 		// route timeout fires before the handler returns: the handler ran all the same
 		timedOut := server && c.Servers[f.si].Native && w.Code == http.StatusServiceUnavailable
